@@ -3,6 +3,7 @@
 //@ harness c14_ilog2_contract kind=proof tier=quick timeout=900 covers=2
 //@ harness c14_key_distance_is_xor kind=proof tier=quick timeout=900
 //@ harness c14_distance_order_is_msb_first kind=proof tier=quick timeout=900
+//@ harness c19_connection_type_total kind=proof tier=quick timeout=300
 //@ harness c14_kad_types_canary kind=canary tier=quick timeout=120
 //
 // C14 — the assumed semantics of uint::U256 (bit / leading_zeros / Ord / ^) cross-checked against the real
@@ -97,6 +98,16 @@ fn c14_distance_order_is_msb_first() {
     }
     assert!(lt == expect);
     assert!((Distance(U256(x)) == Distance(U256(y))) == (x == y));
+}
+
+/// ConnectionType::try_from(i32) is total and inverse to the encoder, for every i32
+#[kani::proof]
+fn c19_connection_type_total() {
+    let v: i32 = kani::any();
+    match ConnectionType::try_from(v) {
+        Ok(c) => { assert!(v >= 0 && v <= 3); assert!(i32::from(c) == v); }
+        Err(()) => assert!(v < 0 || v > 3),
+    }
 }
 
 #[kani::proof]
